@@ -228,6 +228,28 @@ def quoting_correspondence(strings):
     return bad
 
 
+def fixed_programs():
+    """documents whose duplicates live only inside a bundle, identifiers shared across scopes, relations whose only
+    attribute is a time"""
+    EXU = "http://example.org/"
+    PROVU = "http://www.w3.org/ns/prov#"
+    b = ["b", "0", "0"]
+    t = ["time", "2012", "3", "31", "9", "21", "0", "0", "none"]
+    return [[["NewDoc"], ["AddNs", ["d", "0"], "ex", EXU],
+             ["NewRecord", ["d", "0"], "Entity", ["S", "ex:top"], [[["S", "ex:k"], ["str", "v"]]]],
+             ["NewBundle", "0", ["S", "ex:b"]],
+             ["NewRecord", b, "Entity", ["S", "ex:e"], [[["S", "ex:k"], ["str", "one"]]]],
+             ["NewRecord", b, "Entity", ["S", "ex:e"], [[["S", "ex:k"], ["str", "two"]], [["S", "prov:label"], ["str", "lab"]]]],
+             ["NewRecord", b, "Activity", ["S", "ex:a"], []],
+             ["NewRecord", b, "Entity", ["S", "ex:top"], []],
+             ["NewRecord", b, "Generation", "none", [[["Q", "prov", PROVU, "entity"], ["str", "ex:e"]],
+                                                     [["Q", "prov", PROVU, "activity"], ["str", "ex:a"]],
+                                                     [["Q", "prov", PROVU, "time"], t]]],
+             ["NewRecord", ["d", "0"], "Usage", ["S", "ex:u"], [[["Q", "prov", PROVU, "activity"], ["str", "ex:a"]],
+                                                                [["Q", "prov", PROVU, "entity"], ["str", "ex:top"]],
+                                                                [["Q", "prov", PROVU, "time"], t]]]]]
+
+
 def run(tier, seed, log, model_runs=True, enlarged=False):
     res = worldprop.run(PROP, tier, seed, log, model_runs, enlarged, C15OracleAll if tier == "thorough" else C15Oracle,
                         ["mixed", "graph", "merge"], n_quick=60, n_thorough=400, classify=classify, post=post,
@@ -239,6 +261,7 @@ def run(tier, seed, log, model_runs=True, enlarged=False):
                                   "goes through the real Graphviz (dot -Tdot_json): acceptance, rankdir, one labelled node per "
                                   "element in its bundle's cluster, one direct or blank-node path per two-ended relation with "
                                   "the right URLs and direction, annotation rows; non-trivial = any program with records",
+                        extra_cases=fixed_programs(),
                         theorem_note="C15 quoting layer (Dot.v)")
     if model_runs:
         import prov.dot  # noqa
